@@ -446,6 +446,57 @@ def check_html_data(rec, data, stats, txns, want, case, with_views, key_suffix='
                 break
 
 
+def cli_formats(rec, rnd, tmp, k):
+    """The four formats as `tally up` delivers them (--quiet: stdout IS the document), on a budget one of whose statement files is missing: each
+    renders, and JSON, Markdown and the HTML data state the same spending total."""
+    from vt import budget as B
+    root = os.path.join(tmp, 'cli%d' % k)
+    shutil.rmtree(root, ignore_errors=True)
+    os.makedirs(os.path.join(root, 'config'))
+    os.makedirs(os.path.join(root, 'data'))
+    missing = rnd.choice(['first', 'last', 'none'])
+    srcs = [('Card', 'data/card.csv'), ('Bank', 'data/bank.csv')]
+    with open(os.path.join(root, 'config', 'settings.yaml'), 'w') as f:
+        f.write('year: 2025\nmerchants_file: config/merchants.rules\ndata_sources:\n' + ''.join(
+            '  - name: %s\n    file: %s\n    format: "{date:%%Y-%%m-%%d},{description},{amount}"\n' % s_ for s_ in (srcs if missing != 'first' else srcs[::-1])))
+    with open(os.path.join(root, 'config', 'merchants.rules'), 'w') as f:
+        f.write('[Netflix]\nmatch: contains("NETFLIX")\ncategory: Subs\nsubcategory: Video\n\n[Cafe]\nmatch: contains("CAFE")\ncategory: Food\nsubcategory: Coffee\n')
+    amounts = [round(rnd.choice([4.5, 15.99, 120.0, 33.33]), 2) for _ in range(4)]
+    with open(os.path.join(root, 'data', 'card.csv'), 'w') as f:
+        f.write('Date,Description,Amount\n' + ''.join('2025-0%d-11,%s,%.2f\n' % (i + 1, d, a) for i, (d, a) in enumerate(zip(['NETFLIX.COM', 'CORNER CAFE', 'NETFLIX.COM', 'ODD SHOP'], amounts))))
+    if missing == 'none':
+        with open(os.path.join(root, 'data', 'bank.csv'), 'w') as f:
+            f.write('Date,Description,Amount\n2025-02-02,CORNER CAFE,6.00\n')
+    want = round(sum(amounts) + (6.0 if missing == 'none' else 0.0), 2)
+    cfg = os.path.join(root, 'config')
+    case = {'kind': 'cli-formats', 'missing': missing}
+    rec.case()
+    rec.count('cli_format_sets')
+    pj = B.tally(root, 'up', cfg, '--format', 'json', '-q')
+    pm = B.tally(root, 'up', cfg, '--format', 'markdown', '-q')
+    ph = B.tally(root, 'up', cfg, '-q')
+    ps = B.tally(root, 'up', cfg, '--format', 'summary', '-q')
+    try:
+        for nm, p in (('json', pj), ('markdown', pm), ('html', ph), ('summary', ps)):
+            if p.returncode != 0:
+                rec.violation('cli-format-fails:' + nm, f'missing source: {missing}; `up --format {nm} -q` exits {p.returncode}: {(p.stderr or p.stdout)[-200:]!r}', case)
+                return
+        try:
+            js = json.loads(pj.stdout)
+        except ValueError as e:
+            rec.violation('cli-json-stdout-is-not-json', f'missing source: {missing}; stdout starts {pj.stdout[:100]!r} ({e})', case)
+            return
+        if not pm.stdout.lstrip().startswith('#'):
+            rec.violation('cli-markdown-stdout-does-not-start-with-its-heading', f'missing source: {missing}; stdout starts {pm.stdout[:100]!r}', case)
+            return
+        data = B.html_data(os.path.join(root, 'output', 'spending_summary.html'))
+        figs = {'json': js['summary']['total_spending'], 'html': data['spendingTotal']}
+        if any(abs(v - want) > 0.011 for v in figs.values()):
+            rec.violation('cli-formats-disagree', f'missing source: {missing}; spending total: {figs}, the statements that can be read give {want}', case)
+    finally:
+        shutil.rmtree(root, ignore_errors=True)
+
+
 def run(rec, shard, nshards, t):
     core.import_tally()
     rnd = core.rng_for('C12', shard)
@@ -456,6 +507,8 @@ def run(rec, shard, nshards, t):
             judge(rec, txns, hostile, rnd, tmp, with_views=rnd.random() < .5)
             if i < 1 and shard == 0:
                 rec.sample([dict(x, date=x['date'].isoformat()) for x in txns[:3]])
+        for k in range(max(1, (6 if t == 'quick' else 60) // nshards)):
+            cli_formats(rec, rnd, tmp, k)
     finally:
         shutil.rmtree(tmp, ignore_errors=True)
 
@@ -465,6 +518,10 @@ def replay(rec, case):
     rnd = core.rng_for('C12', 'replay')
     tmp = tempfile.mkdtemp(prefix='vt-c12-')
     try:
+        if case.get('kind') == 'cli-formats':
+            for k in range(6):
+                cli_formats(rec, rnd, tmp, k)
+            return
         if case.get('kind') == 'json-summary-witness':
             txns = [{'amount': a, 'tags': tg, 'merchant': 'Venmo', 'category': 'Finance', 'subcategory': 'P2P', 'date': datetime(2025, 1, 5 + i),
                      'description': 'Venmo', 'raw_description': 'VENMO %d' % i, 'source': 'Amex', 'location': None}
